@@ -17,7 +17,7 @@ CHECKS = {
    "DESIGN.md §4 C15"),
  "C18": ("hostile", "exploration",
    "differential testing: generated requests and authenticator states driven through <Authenticator as Ctap2Api> and through the direct methods on two authenticators built from the same description, in isolated worker processes (termination oracle)",
-   "For generated getInfo / makeCredential / getAssertion requests (valid and failing in every documented way), store contents, capabilities, hmac-secret configurations and user-validation behaviours, the trait call must terminate (a stack overflow or abort kills the worker and is attributed to the case) and agree with the direct call: same status byte on errors; same authenticator data, selected credential, user entity, extension outputs and a verifying signature on successes (registrations by shape, as keys and ids are random); same abstract store state, same user-validation call log and same sequence of store calls. RP IDs are also arbitrary text (0-70 characters, 1-4 byte characters) and store calls may fail with any status byte, both sides armed alike.",
+   "For generated getInfo / makeCredential / getAssertion requests (valid and failing in every documented way), store contents, capabilities, hmac-secret configurations and user-validation behaviours, the trait call must terminate (a stack overflow or abort kills the worker and is attributed to the case) and agree with the direct call: same status byte on errors; same authenticator data, selected credential, user entity, extension outputs and a verifying signature on successes (registrations by shape, as keys and ids are random); same abstract store state, same user-validation call log and same sequence of store calls. RP IDs are also arbitrary text (0-70 characters, 1-4 byte characters) and store calls may fail with any status byte, both sides armed alike; makeCredential carries explicit hmac-secret inputs and the authenticators are configured with default / empty / other transport lists.",
    "two separately built but identically described authenticators stand for 'an authenticator in the same state'",
    "DESIGN.md §4 C18"),
  "C13": ("codec", "exploration",
@@ -27,17 +27,17 @@ CHECKS = {
    "DESIGN.md §4 C13"),
  "C14": ("codec", "exploration",
    "proptest-generated option trees rendered under many JSON presentations and compared with the canonical presentation (differential/metamorphic oracle); byte-string and emitted-credential round-trips; order-preserving key scan of client data",
-   "Each generated creation/request options value is rendered canonically and under four generated presentations (binary members as number array / base64url / base64, padded or not; numbers as number, string, integral float, exponent, stringified float; unknown members at every object level; unknown enumeration strings; allowList alias) and both must parse to the same value; base64url encode/decode and Bytes<->String are checked as identities on generated byte strings together with every textual presentation; collected client data with generated nested extras and unknown members must serialise type, challenge, origin, crossOrigin first and keep the original order (also after parse/re-serialise and in clientDataJSON produced by real ceremonies); credentials emitted by real registrations/assertions (challenges and extra client data up to several KiB) must re-parse from their JSON to an equal value. The whole check runs a second time against the library built with its serialize_bytes_as_base64_string feature (separate harness build, results merged into the evidence).",
+   "Each generated creation/request options value is rendered canonically and under four generated presentations (binary members as number array / base64url / base64, padded or not; numbers as number, string, integral float, exponent, stringified float; unknown members at every object level; unknown enumeration strings; allowList alias) and both must parse to the same value through serde_json::from_str, from_reader and from_value alike; base64url encode/decode and Bytes<->String are checked as identities on generated byte strings together with every textual presentation; collected client data with generated nested extras and unknown members must serialise type, challenge, origin, crossOrigin first and keep the original order (also after parse/re-serialise and in clientDataJSON produced by real ceremonies); credentials emitted by real registrations/assertions (challenges and extra client data up to several KiB) must re-parse from their JSON to an equal value. The whole check runs a second time against the library built with its serialize_bytes_as_base64_string feature (separate harness build, results merged into the evidence).",
    "values compared through Debug rendering (no PartialEq on the types); serde_json with preserve_order is the order-preserving scanner",
    "DESIGN.md §4 C14"),
  "C12": ("codec", "exploration",
    "proptest-generated authenticator data values: independent fixed-offset decoder (layout oracle), round-trip, and enumeration of every strict prefix / single-byte corruption of a subset",
-   "Values built with the public constructor and setters over RP IDs, counters, flag sets, AAGUIDs, credential-id lengths at every u8/u16 boundary up to 65535 (and beyond for the constructor guard), EC2 keys (parameters in any order) and both extension output types, optionally followed by a second extension-setter call, are encoded and decoded by the harness's own layout decoder (rpIdHash recomputed from the RP ID, big-endian counter, AT/ED iff section present, aaguid/length/id/COSE key/extension map bytes) and by the library (round-trip equality, absent counter reads back as 0); every strict prefix, reserved flag bits and flagged-but-missing sections must be rejected; corrupted encodings must not panic and must decode to a fixpoint.",
+   "Values built with the public constructor and setters over RP IDs, counters, flag sets, AAGUIDs, credential-id lengths at every u8/u16 boundary up to 65535 (and beyond for the constructor guard), EC2 keys (parameters in any order, optionally with key id / key operations) and both extension output types, optionally followed by a second extension-setter call, are encoded and decoded by the harness's own layout decoder (rpIdHash recomputed from the RP ID, big-endian counter, AT/ED iff section present, aaguid/length/id/COSE key/extension map bytes) and by the library (round-trip equality, absent counter reads back as 0); every strict prefix, reserved flag bits and flagged-but-missing sections must be rejected; corrupted encodings must not panic and must decode to a fixpoint.",
    "AT/ED are controlled by the section setters only (set_flags gets UP/UV/BE/BS); trailing bytes are not constrained by the statement",
    "DESIGN.md §4 C12"),
  "C16": ("hid", "exploration",
    "complete payload-length sweep 0..=7700 plus proptest messages through an independent packet parser and a fresh receiver (round-trip oracle); complete enumeration of all order-preserving merges of short multi-channel streams plus generated merges",
-   "Every payload length 0..=7700 (and 65535/65536/70000) is sent; the bytes written are parsed by the harness's own CTAPHID packet parser (64-byte packets, header layout, sequence numbers from 0 with bit 7 clear, zero padding, concatenation equals payload, nothing accepted above 7609) and fed to a fresh ChannelHandler (nothing before the last packet, exactly one equal message on it, orphan continuation yields nothing). For 2-4 channels all order-preserving merges of streams with up to 9 packets in total are enumerated for nine command rotations (so INIT, CANCEL ... appear on every channel position) and longer streams get generated merges: uniformly mixed ones, and skewed ones in which one channel pauses inside its message while other channels send whole messages of up to 129 packets and a further channel starts only afterwards.",
+   "Every payload length 0..=7700 (and 65535/65536/70000) is sent; the bytes written are parsed by the harness's own CTAPHID packet parser (64-byte packets, header layout, sequence numbers from 0 with bit 7 clear, zero padding, concatenation equals payload, nothing accepted above 7609) and fed to a fresh ChannelHandler (nothing before the last packet, exactly one equal message on it, orphan continuation yields nothing). For 2-4 channels all order-preserving merges of streams with up to 9 packets in total are enumerated for nine command rotations (so INIT, CANCEL ... appear on every channel position) and longer streams get generated merges: uniformly mixed ones, and skewed ones in which one channel pauses inside its message while other channels send whole messages of up to 129 packets and a further channel starts only afterwards; a third of the generated merges run on a receiver that still holds given-up transmissions on the same channels.",
    "channel id byte order accepted as either endianness but fixed within a message; refusals at or below 7609 are measured (the sender refuses exactly 7609)",
    "DESIGN.md §4 C16"),
  "C17": ("u2f", "exploration",
@@ -52,37 +52,37 @@ CHECKS = {
    "DESIGN.md §4 C19"),
  "C07": ("faults", "fault_enumeration",
    "fault enumeration over generated scenarios: every store call failing with each status of a set, cancellation after every number of polls, plus proptest combinations; snapshot/log invariant oracle",
-   "For each generated scenario (create / assert / U2F register with extensions, counters, lists, error-inducing options, suspending doubles) the harness first records the fault-free run, then enumerates completely (a) every fallible store call of that run failing with each of seven status bytes and (b) dropping the operation after every possible number of polls, and adds generated combinations of 2-3 faults with cancellation. Store snapshots and the store's call log decide: failed registration => store identical; cancelled registration => identical or plus exactly one complete record; success => the store accepted the save/the exact counter value first; failed/cancelled assertion => only the selected counter may have advanced by one; an injected save/update error never yields success. Histories on the shipped MemoryStore and Option slot add ceremonies that fail by themselves (refused user, excluded credential, unsupported algorithm, PRF the credential cannot serve, U2F key handles registered again), judged by snapshots before/after every operation.",
+   "For each generated scenario (create / assert / U2F register with extensions, counters, lists, error-inducing options, suspending doubles) the harness first records the fault-free run, then enumerates completely (a) every fallible store call of that run failing with each of seven status bytes and (b) dropping the operation after every possible number of polls, and adds generated combinations of 2-3 faults with cancellation. Store snapshots and the store's call log decide: failed registration => store identical; cancelled registration => identical or plus exactly one complete record; success => the store accepted the save/the exact counter value first; failed/cancelled assertion => only the selected counter may have advanced by one; an injected save/update error never yields success. Histories on the shipped MemoryStore and Option slot add ceremonies that fail by themselves (refused user, excluded credential, unsupported algorithm, PRF the credential cannot serve, U2F key handles registered again or longer than 255 bytes, the selected credential removed by another party during the prompt), judged by snapshots before/after every operation.",
    "suspension points are those reachable through the public traits (user validation, store calls), which are all the await points of these ceremonies; get_info cannot fail by its signature",
    "DESIGN.md §4 C07"),
  "C09": ("ceremony", "exploration",
    "proptest-generated PRF ceremonies (client and CTAP2 level) against HMAC-SHA-256 built in the harness and a reference validator for malformed requests (reference-model oracle)",
-   "Generated registrations and assertions over five authenticator configurations, verified/unverified users, stores with credentials holding no/gated/both secrets, inputs of any length and every evalByCredential key shape: each PRF result present must equal HMAC(k, salt) computed by the harness for a secret of exactly the credential created/used, with the gated secret only when the UV bit of that ceremony is set and always when verified during an assertion; per-credential inputs override defaults; enabled must equal 'secrets stored'; no capability means no output and no secret; every malformed class must be rejected with the stated error before any check_user/find/save call.",
+   "Generated registrations and assertions over five authenticator configurations, verified/unverified users, stores with credentials holding no/gated/both secrets, inputs of any length and every evalByCredential key shape: each PRF result present must equal HMAC(k, salt) computed by the harness for a secret of exactly the credential created/used, with the gated secret only when the UV bit of that ceremony is set and always when verified during an assertion; per-credential inputs override defaults; enabled must equal 'secrets stored'; no capability means no output and no secret; every malformed class must be rejected with the stated error before any check_user/find/save call; a successful assertion without a result although inputs apply and the credential holds the needed secret is a violation.",
    "HMAC and salts are the harness's own code on top of sha2; a missing second output is measured only",
    "DESIGN.md §4 C09"),
  "C04": ("consent", "exploration",
    "complete enumeration of the finite configuration product on fresh authenticators with scripted user-validation doubles; statement-derived oracle plus a metamorphic pair over store content",
-   "All ~9k combinations of operation, requested rk/up/uv (handed over as a value, or through the request's CBOR encoding with default-valued options and the emptied options map left out), verification and presence capability, user-validation outcome (4 results + 3 error codes), pin-auth, store content and exclude list are executed at the authenticator API and (reduced) through Client; success requires the reported presence/verification, UP/UV bits must equal what the double reported, every missing-consent class must fail with the store snapshot unchanged and with the same outcome whether or not a matching credential exists, and the credential shown to check_user (every time it is consulted) must be the one that signs (two matching credentials are stored). The space is finite and is enumerated completely.",
+   "All ~9k combinations of operation, requested rk/up/uv (handed over as a value, or through the request's CBOR encoding with default-valued options and the emptied options map left out), verification and presence capability, user-validation outcome (4 results + 3 error codes), pin-auth, store content and exclude list are executed at the authenticator API and (reduced) through Client; success requires the reported presence/verification, UP/UV bits must equal what the double reported, every missing-consent class must fail with the store snapshot unchanged and with the same outcome whether or not a matching credential exists, and the credential shown to check_user (every time it is consulted) must be the one that signs (two matching credentials are stored; in 1 344 further configurations another party inserts a further credential in front while the user is asked). The space is finite and is enumerated completely.",
    "doubles implement the public UserValidationMethod / CredentialStore traits; the counter setting is on so that a premature update would show in the snapshot",
    "DESIGN.md §4 C04"),
  "C05": ("stores", "exploration",
    "proptest-generated store contents and allow/exclude lists against the authenticator (model oracle) and differential contract conformance of every shipped store and lock wrapper against the reference lookup semantics",
-   "(A) generated contents over three RPs with identical user handles and every list shape (absent, empty, hits, misses, foreign-RP ids, unknown descriptor types) drive get_assertion / make_credential on the reference store, MemoryStore, the Option slot and a lock wrapper: the credential used must belong to the RP and to a non-empty allow list and be, for an absent or empty list, the first the reference store lists; credential-excluded must occur exactly when a non-empty exclude list names a credential of the same RP, creating nothing; the store must be queried with the request's RP ID. (B) all nine shipped store/wrapper types are compared with the contract { c | c.rp_id == rp and (ids None or c.id in ids) } on generated save/update/query sequences. (C) the six lock wrappers are called while another task holds the mutex / write lock / read lock: a lookup (and through the Arc wrappers an update or a save) may wait but must then answer per the contract.",
+   "(A) generated contents over three RPs with identical user handles and every list shape (absent, empty, hits, misses, near misses, foreign-RP ids, unknown descriptor types; the reference store answers a miss with NoCredentials or Ok(empty)) drive get_assertion / make_credential on the reference store, MemoryStore, the Option slot and a lock wrapper: the credential used must belong to the RP and to a non-empty allow list and be, for an absent or empty list, the first the reference store lists; credential-excluded must occur exactly when a non-empty exclude list names a credential of the same RP, creating nothing; the store must be queried with the request's RP ID. (B) all nine shipped store/wrapper types are compared with the contract { c | c.rp_id == rp and (ids None or c.id in ids) } on generated save/update/query sequences. (C) the six lock wrappers are called while another task holds the mutex / write lock / read lock: a lookup (and through the Arc wrappers an update or a save) may wait but must then answer per the contract.",
    "known finding D5 (MemoryStore family ignores rp_id when ids are given) is recognised by signature and counted so the search continues; every other disagreement is a violation",
    "DESIGN.md §4 C05"),
  "C11": ("ceremony", "exploration",
    "complete enumeration of capability x residentKey x requireResidentKey x credProps (x CTAP rk) through the real client/authenticator against the table in the statement",
-   "All ~220 configurations (incl. PRF requested alongside, and the store capability changing to each other value while the user is being asked) are run through Client::register + three authentications under userVerification preferred / discouraged / required (and make_credential/get_assertion for the CTAP-level rk): the rk option that reaches the store must follow the WebAuthn mapping, the stored user handle must exist exactly when the credential is discoverable under the store capability, a required resident key on a non-discoverable-only store must be refused with nothing stored, credProps.rk when requested must equal the stored discoverability and the assertion must return a user handle exactly when one is stored. The space is finite and enumerated completely.",
+   "All ~400 configurations (incl. PRF requested alongside, the store capability changing while the user is being asked, the store inside each lock wrapper, authenticators without configured user verification) are run through Client::register + three authentications under userVerification preferred / discouraged / required (and make_credential/get_assertion for the CTAP-level rk): the rk option that reaches the store must follow the WebAuthn mapping, the stored user handle must exist exactly when the credential is discoverable under the store capability, a required resident key on a non-discoverable-only store must be refused with nothing stored, credProps.rk when requested must equal the stored discoverability and the assertion must return a user handle exactly when one is stored. The space is finite and enumerated completely.",
    "capability is injected through the reference store's get_info",
    "DESIGN.md §4 C11"),
  "C02": ("ceremony", "exploration",
    "proptest-generated registration histories through the real Client, judged by an independent relying-party verifier and a store-delta model (model-based oracle)",
-   "Generated histories of registrations (all client-data modes, algorithm lists, challenge/user shapes, id lengths, counter settings, three store kinds, nine accepted origin/RP-ID sites) are executed on the real client+authenticator; each success is verified the way a relying party would (client data, attestation object, authenticator data layout decoded independently, COSE/DER key agreement, P-256 point validity) and against the store delta (exactly one new record whose private scalar matches the returned public key, effective RP ID, fresh id of the configured length); unsupported-only algorithm lists must fail and leave the store unchanged.",
+   "Generated histories of registrations (all client-data modes, algorithm lists, challenge/user shapes, id lengths, counter settings, three store kinds, nine accepted origin/RP-ID sites) are executed on the real client+authenticator; each success is verified the way a relying party would (client data, attestation object, authenticator data layout decoded independently, COSE/DER key agreement, P-256 point validity) and against the store delta (exactly one new record whose private scalar matches the returned public key, effective RP ID, fresh id of the configured length); unsupported-only algorithm lists must fail and leave the store unchanged. Registrations also request extensions (credProps, PRF) and carry exclude lists that exclude nothing; the check runs a second time against the library built with its serialize_bytes_as_base64_string feature.",
    "trusts p256, ciborium::Value and serde_json::Value as generic parsers inside the oracle; user validation always consents (C04 covers consent)",
    "DESIGN.md §4 C02"),
  "C03": ("ceremony", "exploration",
    "proptest-generated interleaved register/authenticate histories with a model of registered credentials; signatures verified with p256 under the model's key (model-based oracle)",
-   "Interleaved histories over several RP IDs, users, allow-list shapes and client-data modes run on the real client; every assertion must verify under the public key the model recorded at registration for the returned id over authData || clientDataHash (or the caller's hash), carry the right client data, rpIdHash, no AT, id/rawId agreement, eligibility (RP and allow list) and the stored user handle; with no eligible credential the result must be CredentialNotFound and the store unchanged.",
+   "Interleaved histories over several RP IDs, users, allow-list shapes and client-data modes run on the real client (registrations with extensions and non-excluding exclude lists); every assertion must verify under the public key the model recorded at registration for the returned id over authData || clientDataHash (or the caller's hash), carry the right client data, rpIdHash, no AT, id/rawId agreement, eligibility (RP and allow list) and the stored user handle; with no eligible credential the result must be CredentialNotFound. Sites include names below 'localhost'; some assertions are made directly at the CTAP2 level (also for mixed-case RP IDs only such a caller can name) and judged the same way.",
    "multi-RP histories run on the reference store (contract semantics) because MemoryStore's id lookup ignores the RP (known finding D5 under C05); single-RP histories also run on the shipped stores",
    "DESIGN.md §4 C03"),
  "C08": ("ceremony", "exploration",
@@ -97,7 +97,7 @@ CHECKS = {
    "DESIGN.md §4 C01"),
  "C10": ("psl", "exploration",
    "complete rule sweep + proptest generated names against a reference PSL implementation (differential oracle)",
-   "Every rule of the shipped .dat is swept (itself, extended by 1-3 labels, leading label removed/replaced) and hundreds of thousands of generated names are compared with an independent implementation of the publicsuffix.org algorithm that reads the .dat at run time; arbitrary strings get structural checks (label-aligned suffix, one more label, empty labels rejected, no panic). Exhaustive over rules, sampled over names: right level for a table-driven lookup whose failure modes are per-rule.",
+   "Every rule of the shipped .dat is swept (itself, extended by 1-3 labels, leading label removed/replaced, each of the list's frequent labels placed directly below it) and hundreds of thousands of generated names are compared with an independent implementation of the publicsuffix.org algorithm that reads the .dat at run time; arbitrary strings get structural checks (label-aligned suffix, one more label, empty labels rejected, no panic). Exhaustive over rules, sampled over names: right level for a table-driven lookup whose failure modes are per-rule.",
    "trusts the idna crate for rule conversion and the harness's ~100-line reference algorithm; agreement asserted on every name without empty labels (literal label matching), address-like names included",
    "DESIGN.md §4 C10"),
 }
